@@ -377,13 +377,13 @@ Proof. intros H Hz. apply compile_wf_nul_free; [exact H|apply regex_src_nul_free
 Theorem safe_class_grew s env : safe_schema_raw_names s env = true -> safe_schema s env = true.
 Proof.
   unfold safe_schema_raw_names, safe_schema, schema_clauses_raw_names, schema_clauses.
-  rewrite pin_field_name_escaped, pin_schema_name_escaped. cbn [name_lit_ok].
+  rewrite pin_field_name_escaped, pin_schema_name_escaped, pin_header_one_line. cbn [name_lit_ok header_ok].
   intro H. apply N.eqb_eq in H.
   repeat (apply N.eq_add_0 in H; let H' := fresh "B" in destruct H as [H H']).
   apply bit_zero, negb_false_iff in B2. apply bit_zero, negb_false_iff in B1.
   rewrite H, B4, B3, B0, B.
   rewrite (forallb_impl _ (fun f => no_nul (fd_name f)) _ (fun f => lit_plain_no_nul (fd_name f)) B2).
-  apply andb_true_iff in B1 as [C1 C2]. rewrite C1.
+  apply andb_true_iff in B1 as [C1 C2]. rewrite (nz_no_nul _ (comment_safe_nz _ C1)).
   destruct env; cbn [negb orb andb] in *; [rewrite (lit_plain_no_nul _ C2)|]; reflexivity.
 Qed.
 
